@@ -1,9 +1,10 @@
 (* Proofs/CodecWireDec.v — C07: the library's decoders return what the reference decodes.
-   For every type of [wire_ty] whose decoder follows the reference ([dec_ty]) and EVERY byte string:
+   For every type of [wire_ty] and EVERY byte string:
      reference SOk v rest   ->  the model's decode returns v and leaves rest
      reference SBad         ->  DataError
      reference SEnd         ->  BufferEmptyError
-     reference STrunc       ->  no claim (the library reads short, silently: Props/C07.v witnesses)
+     reference STrunc       ->  no claim (an unbounded array whose last element is cut short ends
+                                silently before it: Props/C07.v witness)
    Induction on [ty] over the stream semantics ([decode_fuel], [dres]). *)
 From PV Require Import Base.Bytes Base.BytesLemmas Base.Res Gen.Types Gen.CodecFacts Model.Codec Model.CodecDom.
 From PV Require Import Spec.WireFloat Spec.Wire Proofs.CodecWireDefs Proofs.CodecWireBase Proofs.CodecWireEnc Proofs.CodecRTDict.
@@ -36,18 +37,19 @@ Qed.
 Lemma bytes_ok_suffix p r : bytes_ok (p ++ r) = true -> bytes_ok r = true.
 Proof. rewrite bytes_ok_app. intros H. now apply andb_prop in H as [_ H]. Qed.
 
-Lemma stream_read_nil n k : stream_read n [] k = DEmpty [].
+Lemma stream_read_nil n k : n <> 0 -> stream_read n [] k = DEmpty [].
 Proof.
-  unfold stream_read, stream_take. destruct (n <? 0); [reflexivity|].
+  intros Hn. unfold stream_read, stream_take. destruct (n =? 0) eqn:E; [lia|]. destruct (n <? 0); [reflexivity|].
   unfold ztake, zdrop. cbn. now rewrite firstn_nil, skipn_nil.
 Qed.
 
-Lemma stream_read_short n bs k : bs <> [] -> blen bs < n -> stream_read n bs k = k bs [].
+Lemma stream_read_short n bs k : bs <> [] -> blen bs < n -> stream_read n bs k = DErr DataError.
 Proof.
   intros Hne Hlt. unfold stream_read, stream_take. unfold blen in Hlt.
   destruct (n <? 0) eqn:E; [lia|]. unfold ztake, zdrop, zlen.
   replace (Z.to_nat (Z.min n (Z.of_nat (length bs)))) with (length bs) by lia.
-  rewrite firstn_all, skipn_all. destruct bs; [congruence|reflexivity].
+  rewrite firstn_all, skipn_all. destruct bs as [|b bs']; [congruence|].
+  destruct (Z.of_nat (length (b :: bs')) <? n) eqn:E2; [reflexivity|lia].
 Qed.
 
 Lemma stream_read_full n bs k :
@@ -56,8 +58,9 @@ Proof.
   intros Hn Hle. unfold stream_read, stream_take. unfold blen in Hle.
   destruct (n <? 0) eqn:E; [lia|]. unfold ztake, zdrop, zlen.
   replace (Z.to_nat (Z.min n (Z.of_nat (length bs)))) with (Z.to_nat n) by lia.
-  destruct (firstn (Z.to_nat n) bs) eqn:F; [|reflexivity].
-  apply (f_equal (@length Z)) in F. rewrite firstn_length_le in F by lia. cbn in F. lia.
+  assert (Hl : length (firstn (Z.to_nat n) bs) = Z.to_nat n) by (apply firstn_length_le; lia).
+  destruct (firstn (Z.to_nat n) bs) as [|x d] eqn:F; [cbn in Hl; lia|].
+  destruct (Z.of_nat (length (x :: d)) <? n) eqn:E2; [lia|reflexivity].
 Qed.
 
 (* ------------------------------------------------------------------ fixed-width scalars *)
@@ -69,12 +72,10 @@ Lemma elem_rel size unpack f :
 Proof.
   intros Hs Hok Hbad bs. unfold sfield, elem_decode.
   destruct bs as [|b0 bs'] eqn:Hbs.
-  - rewrite stream_read_nil. cbn. eexists; reflexivity.
+  - rewrite stream_read_nil by lia. cbn. eexists; reflexivity.
   - rewrite <- Hbs. assert (Hne : bs <> []) by (subst; discriminate).
     destruct (blen bs <? Z.of_nat size) eqn:E.
-    + rewrite stream_read_short by (try exact Hne; lia).
-      destruct (Hbad bs) as [e He]. { unfold blen in E. split; [subst; cbn; lia|lia]. }
-      rewrite He. reflexivity.
+    + rewrite stream_read_short by (try exact Hne; lia). reflexivity.
     + rewrite stream_read_full by lia. rewrite Nat2Z.id.
       rewrite Hok by (rewrite firstn_length_le; unfold blen in E; lia). reflexivity.
 Qed.
@@ -108,22 +109,20 @@ Section WithFloat.
     intros Hok. unfold sdec_real, real_decode. destruct dbl.
     - (* the values agree only on byte strings: compare after restricting to the bytes read *)
       unfold sfield, elem_decode.
-      destruct bs as [|b0 bs'] eqn:Hbs; [rewrite stream_read_nil; cbn; eexists; reflexivity|].
+      destruct bs as [|b0 bs'] eqn:Hbs; [rewrite stream_read_nil by (cbn; lia); cbn; eexists; reflexivity|].
       rewrite <- Hbs in *. assert (Hne : bs <> []) by (subst; discriminate).
       change (Z.of_nat 8) with 8 in *. destruct (blen bs <? 8) eqn:E.
-      + rewrite stream_read_short by (try exact Hne; lia). unfold unpack_real.
-        destruct (length bs =? 8)%nat eqn:E8; [apply Nat.eqb_eq in E8; unfold blen in E; lia|]. reflexivity.
+      + rewrite stream_read_short by (try exact Hne; lia). reflexivity.
       + rewrite stream_read_full by lia. change (Z.to_nat 8) with 8%nat. unfold unpack_real.
         assert (Hl : length (firstn 8 bs) = 8%nat) by (rewrite firstn_length_le; unfold blen in E; lia).
         rewrite Hl. cbn [Nat.eqb dres_of_res dwrap]. rewrite spec_le_val_le_dec.
         rewrite sp_canon64_model; [reflexivity|].
         pose proof (le_dec_range (firstn 8 bs) (bytes_ok_firstn 8 bs Hok)) as Hr. rewrite Hl in Hr. exact Hr.
     - unfold sfield, elem_decode.
-      destruct bs as [|b0 bs'] eqn:Hbs; [rewrite stream_read_nil; cbn; eexists; reflexivity|].
+      destruct bs as [|b0 bs'] eqn:Hbs; [rewrite stream_read_nil by (cbn; lia); cbn; eexists; reflexivity|].
       rewrite <- Hbs in *. assert (Hne : bs <> []) by (subst; discriminate).
       change (Z.of_nat 4) with 4 in *. destruct (blen bs <? 4) eqn:E.
-      + rewrite stream_read_short by (try exact Hne; lia). unfold unpack_real.
-        destruct (length bs =? 4)%nat eqn:E4; [apply Nat.eqb_eq in E4; unfold blen in E; lia|]. reflexivity.
+      + rewrite stream_read_short by (try exact Hne; lia). reflexivity.
       + rewrite stream_read_full by lia. change (Z.to_nat 4) with 4%nat. unfold unpack_real.
         assert (Hl : length (firstn 4 bs) = 4%nat) by (rewrite firstn_length_le; unfold blen in E; lia).
         rewrite Hl. cbn [Nat.eqb dres_of_res dwrap]. rewrite spec_le_val_le_dec.
@@ -135,10 +134,10 @@ End WithFloat.
 Lemma bits_rel w bs : (0 < w)%nat -> bytes_ok bs = true -> Rel (sdec_bits w bs) (bits_decode w bs).
 Proof.
   intros Hw Hok. unfold sdec_bits, bits_decode, int_decode, sfield, elem_decode.
-  destruct bs as [|b0 bs'] eqn:Hbs; [rewrite stream_read_nil; cbn; eexists; reflexivity|].
+  destruct bs as [|b0 bs'] eqn:Hbs; [rewrite stream_read_nil by lia; cbn; eexists; reflexivity|].
   rewrite <- Hbs in *. assert (Hne : bs <> []) by (subst; discriminate).
   destruct (blen bs <? Z.of_nat w) eqn:E.
-  - rewrite stream_read_short by (try exact Hne; lia). rewrite unpack_int_bad by (unfold blen in E; lia). reflexivity.
+  - rewrite stream_read_short by (try exact Hne; lia). reflexivity.
   - rewrite stream_read_full by lia. rewrite Nat2Z.id. unfold unpack_int.
     assert (Hl : length (firstn w bs) = w) by (rewrite firstn_length_le; unfold blen in E; lia).
     rewrite Hl, Nat.eqb_refl. cbn [dres_of_res dwrap dbind as_int].
@@ -396,6 +395,7 @@ Qed.
 Lemma suf_TStructTag ms bits priv size : SUF (TStructTag ms bits priv size).
 Proof.
   intros _ bs v r H. cbn [spec_decode] in H. unfold sdec_stag in H.
+  destruct bs as [|b0 bs'] eqn:Hbs; [discriminate|]. rewrite <- Hbs in *. clear Hbs b0 bs'.
   destruct (length bs <? size)%nat eqn:E; [discriminate|]. apply Nat.ltb_ge in E.
   destruct (sdec_stag_members _ priv (firstn size bs)) as [d r0| | |]; try discriminate. cbn [sbind] in H.
   destruct d; try discriminate. injection H as _ <-.
@@ -431,33 +431,36 @@ Qed.
 Definition EMP (t : ty) : Prop :=
   wire_ty t = true -> sconsumes t = true -> forall fuel, decode_fuel fuel t [] = DEmpty [].
 
-Lemma elem_decode_nil size unpack : elem_decode size unpack [] = DEmpty [].
-Proof. unfold elem_decode. now rewrite stream_read_nil. Qed.
-Lemma int_decode_nil sg w : int_decode sg w [] = DEmpty [].
+Lemma elem_decode_nil size unpack : (0 < size)%nat -> elem_decode size unpack [] = DEmpty [].
+Proof. intros H. unfold elem_decode. now rewrite stream_read_nil by lia. Qed.
+Lemma int_decode_nil sg w : (0 < w)%nat -> int_decode sg w [] = DEmpty [].
 Proof. apply elem_decode_nil. Qed.
 Lemma named_int_decode_nil_UINT : named_int_decode n_UINT [] = DEmpty [].
-Proof. unfold named_int_decode. rewrite int_row_UINT. apply int_decode_nil. Qed.
+Proof. unfold named_int_decode. rewrite int_row_UINT. apply int_decode_nil. lia. Qed.
 Lemma named_int_decode_nil_UDINT : named_int_decode n_UDINT [] = DEmpty [].
-Proof. unfold named_int_decode. rewrite int_row_UDINT. apply int_decode_nil. Qed.
+Proof. unfold named_int_decode. rewrite int_row_UDINT. apply int_decode_nil. lia. Qed.
 
 Lemma emp_TBool : EMP TBool.
-Proof. intros _ _ fuel. cbn [decode_fuel]. apply elem_decode_nil. Qed.
+Proof. intros _ _ fuel. cbn [decode_fuel]. apply elem_decode_nil. lia. Qed.
 Lemma emp_TInt sg w : EMP (TInt sg w).
-Proof. intros _ _ fuel. cbn [decode_fuel]. apply int_decode_nil. Qed.
+Proof. intros Hw _ fuel. cbn [wire_ty] in Hw. cbn [decode_fuel]. apply int_decode_nil. lia. Qed.
 Lemma emp_TReal dbl : EMP (TReal dbl).
-Proof. intros _ _ fuel. cbn [decode_fuel]. apply elem_decode_nil. Qed.
+Proof. intros _ _ fuel. cbn [decode_fuel]. apply elem_decode_nil. destruct dbl; lia. Qed.
 Lemma emp_TDateTime : EMP TDateTime.
 Proof. intros _ _ fuel. cbn [decode_fuel]. unfold datetime_decode. now rewrite named_int_decode_nil_UDINT. Qed.
 Lemma emp_TStr a b c : EMP (TStr a b c).
-Proof. intros _ _ fuel. cbn [decode_fuel]. unfold str_decode. now rewrite int_decode_nil. Qed.
+Proof. intros Hw _ fuel. cbn [wire_ty] in Hw. cbn [decode_fuel]. unfold str_decode. now rewrite int_decode_nil by lia. Qed.
 Lemma emp_TStringN : EMP TStringN.
 Proof. intros _ _ fuel. cbn [decode_fuel]. unfold stringn_decode. now rewrite named_int_decode_nil_UINT. Qed.
 Lemma emp_TNBytes n : EMP (TNBytes n).
-Proof. intros _ _ fuel. cbn [decode_fuel]. unfold nbytes_decode. now rewrite stream_read_nil. Qed.
+Proof. intros Hw _ fuel. cbn [wire_ty] in Hw. cbn [decode_fuel]. unfold nbytes_decode. now rewrite stream_read_nil by lia. Qed.
 Lemma emp_TBits w : EMP (TBits w).
-Proof. intros _ _ fuel. cbn [decode_fuel]. unfold bits_decode. now rewrite int_decode_nil. Qed.
+Proof. intros Hw _ fuel. cbn [wire_ty] in Hw. cbn [decode_fuel]. unfold bits_decode. now rewrite int_decode_nil by lia. Qed.
 Lemma emp_TFixedStr a b c d : EMP (TFixedStr a b c d).
-Proof. intros _ _ fuel. cbn [decode_fuel]. unfold fixedstr_decode. rewrite fss_enc_latin1. now rewrite int_decode_nil. Qed.
+Proof.
+  intros Hw _ fuel. cbn [wire_ty] in Hw. cbn [decode_fuel]. unfold fixedstr_decode. rewrite fss_enc_latin1.
+  now rewrite int_decode_nil by lia.
+Qed.
 
 Lemma emp_TArrFixed n e : EMP e -> EMP (TArrFixed n e).
 Proof.
@@ -485,9 +488,7 @@ Proof.
   cbn [forallb snd] in Hwm. apply andb_prop in Hwm as [Hwt _].
   inversion Hall as [|? ? Ht _]; subst. cbn [snd] in Ht.
   cbn [decode_fuel map fst snd]. unfold structtag_decode. rewrite firstn_nil, skipn_nil.
-  cbn [stag_decode_members length Nat.sub]. 
-  assert (Hsub : (if (0 <? off)%nat then skipn (off - 0) (@nil Z) else []) = []) by (destruct (0 <? off)%nat; [apply skipn_nil|reflexivity]).
-  rewrite Hsub, (Ht Hwt Hc fuel). reflexivity.
+  cbn [length Nat.eqb negb andb stag_decode_members]. rewrite skipn_nil, (Ht Hwt Hc fuel). reflexivity.
 Qed.
 
 Lemma EMP_all : forall t, EMP t.
@@ -548,13 +549,14 @@ Lemma block_rel n bs ks km :
   Rel (sblock n bs ks) (stream_read n bs km).
 Proof.
   intros Hn Hk. unfold sblock. destruct bs as [|b0 bs'] eqn:Hbs.
-  - rewrite stream_read_nil. cbn. eexists; reflexivity.
-  - rewrite <- Hbs in *. destruct (blen bs <? n) eqn:E; [exact I|].
-    rewrite stream_read_full by lia. apply Hk. lia.
+  - rewrite stream_read_nil by lia. cbn. eexists; reflexivity.
+  - rewrite <- Hbs in *. assert (Hne : bs <> []) by (subst; discriminate). destruct (blen bs <? n) eqn:E.
+    + rewrite stream_read_short by (try exact Hne; lia). reflexivity.
+    + rewrite stream_read_full by lia. apply Hk. lia.
 Qed.
 
 Definition DEC (t : ty) : Prop :=
-  wire_ty t = true -> dec_ty t = true -> forall fuel bs, bytes_ok bs = true -> (length bs < fuel)%nat ->
+  wire_ty t = true -> forall fuel bs, bytes_ok bs = true -> (length bs < fuel)%nat ->
   Rel (spec_decode t bs) (decode_fuel fuel t bs).
 
 Lemma named_int_decode_UINT bs : named_int_decode n_UINT bs = int_decode false 2 bs.
@@ -564,7 +566,7 @@ Proof. unfold named_int_decode. now rewrite int_row_UDINT. Qed.
 
 Lemma dec_TDateTime : DEC TDateTime.
 Proof.
-  intros _ _ fuel bs Hok _. cbn [spec_decode decode_fuel]. unfold sdec_datetime, datetime_decode.
+  intros _ fuel bs Hok _. cbn [spec_decode decode_fuel]. unfold sdec_datetime, datetime_decode.
   rewrite named_int_decode_UDINT. apply rel_bind; [apply int_rel; lia|]. intros t r1 _.
   rewrite named_int_decode_UINT. apply rel_bind; [apply int_rel; lia|]. intros d r2 _. reflexivity.
 Qed.
@@ -577,43 +579,96 @@ Qed.
 Lemma bytes_ok_app_l p r : bytes_ok (p ++ r) = true -> bytes_ok p = true.
 Proof. rewrite bytes_ok_app. intros H. now apply andb_prop in H as [H _]. Qed.
 
-Lemma text_decode_latin1 d : text_decode Latin1 d = Ok d.
-Proof. reflexivity. Qed.
+(* the characters of a string: [n] units of [cw] bytes, decoded as the encoding says *)
+Lemma chars_rel e cw n r1 :
+  char_width e = Some cw -> 0 < n -> bytes_ok r1 = true ->
+  Rel (sdec_chars cw n r1)
+      (dwrap (stream_read (n * enc_char_size e) r1 (fun data r2 =>
+                match text_decode e data with Ok s => DOk (VStr s) r2 | Err err => DErr err end))).
+Proof.
+  intros He Hn Hok. unfold sdec_chars, sblock. rewrite (char_width_size _ _ He).
+  assert (Hcw : 0 < Z.of_nat cw) by (destruct e; cbn in He; try discriminate; injection He as <-; lia).
+  set (N := n * Z.of_nat cw). assert (HN : 0 < N) by (unfold N; nia).
+  destruct r1 as [|b0 r'] eqn:Hr.
+  - rewrite stream_read_nil by lia. cbn. eexists; reflexivity.
+  - rewrite <- Hr in *. assert (Hne : r1 <> []) by (subst; discriminate). destruct (blen r1 <? N) eqn:E.
+    + rewrite stream_read_short by (try exact Hne; lia). reflexivity.
+    + rewrite stream_read_full by lia.
+      rewrite (text_decode_spec e cw _ He) by now apply bytes_ok_firstn.
+      destruct (spec_chars_dec cw _ _); reflexivity.
+Qed.
+
+Lemma rel_err_wrap s e : Rel s (DErr e) -> Rel s (dwrap (DErr e)).
+Proof. apply rel_dwrap. Qed.
 
 Lemma dec_TStr lsg lw e : DEC (TStr lsg lw e).
 Proof.
-  intros Hw Hd fuel bs Hok _. cbn [wire_ty] in Hw. cbn [dec_ty] in Hd. destruct e; try discriminate.
-  destruct lsg; [cbn in Hw; lia|]. assert (Hlw : (0 < lw)%nat) by lia.
-  cbn [spec_decode char_width decode_fuel]. unfold sdec_str, str_decode.
+  intros Hw fuel bs Hok _. cbn [wire_ty] in Hw.
+  destruct (char_width e) as [cw|] eqn:Hcw; [|lia]. destruct lsg; [cbn in Hw; lia|]. assert (Hlw : (0 < lw)%nat) by lia.
+  cbn [spec_decode decode_fuel]. rewrite Hcw. unfold sdec_str, str_decode.
   apply rel_bind; [now apply int_rel|]. intros v r1 Hv.
   apply sdec_int_suf in Hv as (p & E & L & -> & _). cbn [as_int].
   assert (Hp : bytes_ok p = true) by (subst bs; now apply bytes_ok_app_l in Hok).
   assert (Hr1 : bytes_ok r1 = true) by (subst bs; now apply bytes_ok_suffix in Hok).
   pose proof (spec_int_val_unsigned lw p Hp) as Hn.
   destruct (spec_int_val false lw p =? 0) eqn:E0; [reflexivity|].
-  apply rel_dwrap. unfold sdec_chars. rewrite Z.mul_1_r.
-  apply block_rel; [lia|]. intros Hle.
-  rewrite spec_chars_dec_latin1 by (try apply bytes_ok_firstn; auto). rewrite text_decode_latin1. reflexivity.
+  exact (chars_rel e cw (spec_int_val false lw p) r1 Hcw ltac:(lia) Hr1).
+Qed.
+
+Lemma stringn_enc_sizes :
+  stringn_enc 1 = Some Latin1 /\ stringn_enc 2 = Some Utf16 /\ stringn_enc 4 = Some Utf32.
+Proof. repeat split; reflexivity. Qed.
+Lemma stringn_enc_other c : c <> 1 -> c <> 2 -> c <> 4 -> stringn_enc c = None.
+Proof.
+  intros H1 H2 H4. unfold stringn_enc. cbn [Gen.CodecFacts.stringn_encodings zlookup].
+  destruct (1 =? c) eqn:E1; [lia|]. destruct (2 =? c) eqn:E2; [lia|]. destruct (4 =? c) eqn:E4; [lia|]. reflexivity.
+Qed.
+
+Lemma dec_TStringN : DEC TStringN.
+Proof.
+  intros _ fuel bs Hok _. cbn [spec_decode decode_fuel]. unfold sdec_stringn, stringn_decode.
+  rewrite named_int_decode_UINT. apply rel_bind; [apply int_rel; lia|]. intros cs r1 Hcs.
+  apply sdec_int_suf in Hcs as (p1 & E1 & L1 & -> & _).
+  assert (Hr1 : bytes_ok r1 = true) by (subst bs; now apply bytes_ok_suffix in Hok).
+  rewrite named_int_decode_UINT.
+  apply rel_bind; [apply int_rel; lia|]. intros cnt r2 Hcnt.
+  apply sdec_int_suf in Hcnt as (p2 & E2 & L2 & -> & _). cbn [as_int].
+  assert (Hp2 : bytes_ok p2 = true) by (subst r1; now apply bytes_ok_app_l in Hr1).
+  assert (Hr2 : bytes_ok r2 = true) by (subst r1; now apply bytes_ok_suffix in Hr1).
+  pose proof (spec_int_val_unsigned 2 p2 Hp2) as Hn.
+  set (c := spec_int_val false 2 p1). set (n := spec_int_val false 2 p2) in *.
+  destruct stringn_enc_sizes as (S1 & S2 & S4).
+  destruct ((c =? 1) || (c =? 2) || (c =? 4)) eqn:Ec.
+  - assert (Hcase : exists e cw, stringn_enc c = Some e /\ char_width e = Some cw /\ Z.of_nat cw = c).
+    { destruct (c =? 1) eqn:C1; [exists Latin1, 1%nat; replace c with 1 by lia; auto|].
+      destruct (c =? 2) eqn:C2; [exists Utf16, 2%nat; replace c with 2 by lia; auto|].
+      exists Utf32, 4%nat. replace c with 4 by lia. auto. }
+    destruct Hcase as (e & cw & He & Hcw & Hc). rewrite He.
+    destruct (n =? 0) eqn:E0; [reflexivity|].
+    replace (Z.to_nat c) with cw by lia.
+    pose proof (chars_rel e cw n r2 Hcw ltac:(lia) Hr2) as Hr. rewrite (char_width_size _ _ Hcw), Hc in Hr. exact Hr.
+  - rewrite stringn_enc_other by lia. reflexivity.
 Qed.
 
 Lemma dec_TNBytes n : DEC (TNBytes n).
 Proof.
-  intros Hw _ fuel bs Hok _. cbn [wire_ty] in Hw. cbn [spec_decode decode_fuel]. unfold sdec_nbytes, nbytes_decode.
+  intros Hw fuel bs Hok _. cbn [wire_ty] in Hw. cbn [spec_decode decode_fuel]. unfold sdec_nbytes, nbytes_decode.
   apply rel_dwrap. destruct (n =? -1) eqn:E.
-  - assert (n = -1) by lia. subst n. unfold stream_read, stream_take. cbn [Z.ltb Z.compare].
-    destruct bs; [cbn; eexists; reflexivity|reflexivity].
+  - assert (n = -1) by lia. subst n. unfold stream_read, stream_take. cbn [Z.ltb Z.compare Z.eqb].
+    destruct bs as [|b bs']; [cbn; eexists; reflexivity|].
+    destruct (zlen (b :: bs') <? -1) eqn:E2; [unfold zlen in E2; lia|reflexivity].
   - apply block_rel; [lia|]. intros _. reflexivity.
 Qed.
 
 Lemma dec_TFixedStr size lsg lw cap : DEC (TFixedStr size lsg lw cap).
 Proof.
-  intros Hw _ fuel bs Hok _. cbn [wire_ty] in Hw. destruct lsg; [cbn in Hw; lia|]. assert (Hlw : (0 < lw)%nat) by lia.
+  intros Hw fuel bs Hok _. cbn [wire_ty] in Hw. destruct lsg; [cbn in Hw; lia|]. assert (Hlw : (0 < lw)%nat) by lia.
   cbn [spec_decode decode_fuel]. unfold sdec_fixedstr, fixedstr_decode. rewrite fss_enc_latin1.
   apply rel_bind; [now apply int_rel|]. intros v r1 Hv.
   apply sdec_int_suf in Hv as (p & E & L & -> & _). cbn [as_int].
   assert (Hp : bytes_ok p = true) by (subst bs; now apply bytes_ok_app_l in Hok).
   pose proof (spec_int_val_unsigned lw p Hp) as Hn.
-  apply rel_dwrap. apply block_rel; [lia|]. intros Hle. rewrite Nat2Z.id. rewrite text_decode_latin1.
+  apply rel_dwrap. apply block_rel; [lia|]. intros Hle. rewrite Nat2Z.id. cbn [text_decode].
   unfold slice_to. destruct (0 <=? spec_int_val false lw p) eqn:E0; [|lia].
   unfold ztake, zlen. rewrite firstn_length_le by (unfold blen in Hle; lia). reflexivity.
 Qed.
@@ -665,7 +720,9 @@ Section Elem.
                  end) by (rewrite Hbs; reflexivity).
         rewrite Hsd. cbn [decode_all]. pose proof (Hrel bs Hok Hfu) as Hr.
         destruct (sdec bs) as [v r| | |] eqn:Hs; cbn [Rel] in Hr.
-        * rewrite Hr. pose proof (Hprog _ _ _ Hs) as Hp. apply Nat.ltb_lt in Hp. rewrite Hp. apply Nat.ltb_lt in Hp.
+        * rewrite Hr. pose proof (Hprog _ _ _ Hs) as Hp.
+          replace (length r =? length bs)%nat with false by (symmetry; apply Nat.eqb_neq; lia).
+          apply Nat.ltb_lt in Hp. rewrite Hp. apply Nat.ltb_lt in Hp.
           destruct (Hsuf _ _ _ Hs) as [p E]. destruct (suffix_facts _ _ _ E Hok) as [Hok1 _].
           apply rel_bind_nowrap; [apply IH; [exact Hok1|lia|lia|lia]|]. intros vs r2 Hvs.
           apply sdec_all_vlist in Hvs as [l ->]. reflexivity.
@@ -687,28 +744,39 @@ Proof. destruct e; try reflexivity; discriminate. Qed.
 Lemma suf_weak e : wire_ty e = true -> forall bs v r, spec_decode e bs = SOk v r -> exists p, bs = p ++ r.
 Proof. intros Hw bs v r H. destruct (SUF_all e Hw bs v r H) as (p & E & _). now exists p. Qed.
 
+Lemma array_flatten_plain vs rest : array_flatten false vs rest = DOk vs rest.
+Proof. reflexivity. Qed.
+
+Lemma rel_flatten_plain s d : Rel s d -> Rel s (dwrap (dbind d (array_flatten false))).
+Proof.
+  destruct s as [v r| | |]; cbn [Rel]; intros H; try exact I.
+  - now subst.
+  - now subst.
+  - destruct H as [r ->]. eexists; reflexivity.
+Qed.
+
 Lemma dec_TArrFixed_plain n e : is_bitstr e = false -> DEC e -> DEC (TArrFixed n e).
 Proof.
-  intros Hnb He Hw Hd fuel bs Hok Hf. cbn [wire_ty] in Hw. apply andb_prop in Hw as [Hwe _].
-  cbn [dec_ty] in Hd. apply andb_prop in Hd as [Hde Hny]. apply negb_true_iff in Hny.
+  intros Hnb He Hw fuel bs Hok Hf. cbn [wire_ty] in Hw. apply andb_prop in Hw as [Hwe _].
   rewrite spec_decode_arr_plain by exact Hnb. cbn [decode_fuel]. unfold array_decode_fixed.
-  rewrite is_instance_nbytes, Hny, is_bits_bitstr, Hnb.
-  pose proof (decode_n_rel (spec_decode e) (decode_fuel fuel e) fuel (fun b Hb Hl => He Hwe Hde fuel b Hb Hl) (suf_weak e Hwe) n bs Hok Hf) as Hr.
-  destruct (sdec_n (spec_decode e) n bs) as [vs r| | |]; cbn [Rel] in Hr |- *.
-  - now rewrite Hr.
-  - now rewrite Hr.
-  - destruct Hr as [r ->]. eexists; reflexivity.
-  - exact I.
+  rewrite is_bits_bitstr, Hnb. apply rel_flatten_plain.
+  exact (decode_n_rel (spec_decode e) (decode_fuel fuel e) fuel (fun b Hb Hl => He Hwe fuel b Hb Hl) (suf_weak e Hwe) n bs Hok Hf).
+Qed.
+
+Lemma elem_progress e : wire_ty e = true -> sconsumes e = true ->
+  forall b v r, spec_decode e b = SOk v r -> (length r < length b)%nat.
+Proof.
+  intros Hwe Hc b v r H. destruct (SUF_all e Hwe b v r H) as (p & E & C & _). specialize (C Hc). subst b.
+  rewrite app_length. destruct p; [congruence|cbn; lia].
 Qed.
 
 Lemma dec_TArrAll_plain e : is_bitstr e = false -> DEC e -> DEC (TArrAll e).
 Proof.
-  intros Hnb He Hw Hd fuel bs Hok Hf. cbn [wire_ty] in Hw. apply andb_prop in Hw as [Hw Hc]. apply andb_prop in Hw as [Hwe _].
-  cbn [dec_ty] in Hd. apply andb_prop in Hd as [Hde _].
-  rewrite spec_decode_all_plain by exact Hnb. cbn [decode_fuel]. unfold array_decode_all. apply rel_dwrap.
-  apply (decode_all_rel (spec_decode e) (decode_fuel fuel e) fuel (fun b Hb Hl => He Hwe Hde fuel b Hb Hl) (suf_weak e Hwe)); try lia; try exact Hok.
-  - intros b v r H. destruct (SUF_all e Hwe b v r H) as (p & E & C & _). specialize (C Hc). subst b.
-    rewrite app_length. destruct p; [congruence|cbn; lia].
+  intros Hnb He Hw fuel bs Hok Hf. cbn [wire_ty] in Hw. apply andb_prop in Hw as [Hw Hc]. apply andb_prop in Hw as [Hwe _].
+  rewrite spec_decode_all_plain by exact Hnb. cbn [decode_fuel]. unfold array_decode_all.
+  rewrite is_bits_bitstr, Hnb. apply rel_flatten_plain.
+  apply (decode_all_rel (spec_decode e) (decode_fuel fuel e) fuel (fun b Hb Hl => He Hwe fuel b Hb Hl) (suf_weak e Hwe)); try lia; try exact Hok.
+  - exact (elem_progress e Hwe Hc).
   - exact (EMP_all e Hwe Hc fuel).
 Qed.
 
@@ -721,6 +789,9 @@ Proof.
     cbn [option_map] in H. injection H as <-. cbn [chain_vals py_iter bind]. now rewrite (IH f' eq_refl).
 Qed.
 
+Lemma sdec_bits_vlist w bs v r : sdec_bits w bs = SOk v r -> exists l, v = VList l.
+Proof. unfold sdec_bits. intros H. apply sfield_inv in H as (_ & _ & H). injection H as <- _. eexists; reflexivity. Qed.
+
 Lemma sdec_n_bits_lists w n bs l r :
   sdec_n (sdec_bits w) n bs = SOk (VList l) r -> exists f, concat_vlists l = Some f.
 Proof.
@@ -729,24 +800,59 @@ Proof.
   - destruct (sdec_bits w bs) as [v r1| | |] eqn:H1; try discriminate. cbn [sbind] in H.
     destruct (sdec_n (sdec_bits w) n r1) as [vs r2| | |] eqn:H2; try discriminate. cbn [sbind] in H.
     unfold scons in H. destruct vs; try discriminate. injection H as <- _.
-    destruct (IH _ _ _ H2) as [f Hf].
-    unfold sdec_bits in H1. apply sfield_inv in H1 as (_ & _ & H1). injection H1 as <- _.
+    destruct (IH _ _ _ H2) as [f Hf]. destruct (sdec_bits_vlist _ _ _ _ H1) as [a ->].
     cbn [concat_vlists]. rewrite Hf. eexists; reflexivity.
 Qed.
 
+Lemma sdec_all_bits_lists w fuel bs l r :
+  sdec_all (sdec_bits w) fuel bs = SOk (VList l) r -> exists f, concat_vlists l = Some f.
+Proof.
+  revert bs l r. induction fuel as [|f IH]; intros bs l r H; destruct bs as [|b bs']; cbn [sdec_all] in H;
+    try (injection H as <- _; eexists; reflexivity); try discriminate.
+  destruct (sdec_bits w (b :: bs')) as [v r1| | |] eqn:H1; try discriminate.
+  destruct (length r1 <? length (b :: bs'))%nat; [|discriminate].
+  destruct (sdec_all (sdec_bits w) f r1) as [vs r2| | |] eqn:H2; try discriminate. cbn [sbind] in H.
+  unfold scons in H. destruct vs; try discriminate. injection H as <- _.
+  destruct (IH _ _ _ H2) as [fl Hf]. destruct (sdec_bits_vlist _ _ _ _ H1) as [a ->].
+  cbn [concat_vlists]. rewrite Hf. eexists; reflexivity.
+Qed.
+
+(* flattening on both sides, once the element lists are known to be lists of lists *)
+Lemma rel_flatten_bits s d :
+  Rel s d -> (forall vs r, s = SOk vs r -> exists l f, vs = VList l /\ concat_vlists l = Some f) ->
+  Rel (sflatten s) (dwrap (dbind d (array_flatten true))).
+Proof.
+  intros H Hl. unfold sflatten. destruct s as [vs r| | |]; cbn [Rel sbind] in H |- *; try exact I.
+  - subst d. destruct (Hl vs r eq_refl) as (l & f & -> & Hf). cbn [dbind array_flatten]. rewrite Hf, (concat_chain _ _ Hf). reflexivity.
+  - now subst.
+  - destruct H as [r ->]. eexists; reflexivity.
+Qed.
+
+Lemma wire_TBits w : (0 < w)%nat -> wire_ty (TBits w) = true.
+Proof. intros H. cbn [wire_ty]. now apply Nat.ltb_lt. Qed.
+
 Lemma dec_TArrFixed_bits n w : DEC (TArrFixed n (TBits w)).
 Proof.
-  intros Hw _ fuel bs Hok Hf. cbn [wire_ty sgreedy] in Hw. assert (Hw' : (0 < w)%nat) by lia.
-  cbn [spec_decode decode_fuel is_bits is_instance]. unfold array_decode_fixed, sflatten.
-  assert (Hwb : wire_ty (TBits w) = true) by (cbn [wire_ty]; apply Nat.ltb_lt; exact Hw').
-  pose proof (decode_n_rel (sdec_bits w) (bits_decode w) fuel (fun b Hb _ => bits_rel w b Hw' Hb)
-                (suf_weak (TBits w) Hwb) n bs Hok Hf) as Hr.
-  destruct (sdec_n (sdec_bits w) n bs) as [vs r| | |] eqn:Hs; cbn [Rel sbind] in Hr |- *.
-  - rewrite Hr. cbn [dbind]. destruct (sdec_n_vlist _ _ _ _ _ Hs) as [l ->].
-    destruct (sdec_n_bits_lists _ _ _ _ _ Hs) as [f Hfl]. rewrite Hfl, (concat_chain _ _ Hfl). reflexivity.
-  - now rewrite Hr.
-  - destruct Hr as [r ->]. eexists; reflexivity.
-  - exact I.
+  intros Hw fuel bs Hok Hf. cbn [wire_ty sgreedy] in Hw. assert (Hw' : (0 < w)%nat) by lia.
+  cbn [spec_decode decode_fuel is_bits]. unfold array_decode_fixed.
+  apply rel_flatten_bits.
+  - exact (decode_n_rel (sdec_bits w) (bits_decode w) fuel (fun b Hb _ => bits_rel w b Hw' Hb)
+             (suf_weak (TBits w) (wire_TBits w Hw')) n bs Hok Hf).
+  - intros vs r Hs. destruct (sdec_n_vlist _ _ _ _ _ Hs) as [l ->].
+    destruct (sdec_n_bits_lists _ _ _ _ _ Hs) as [f Hfl]. now exists l, f.
+Qed.
+
+Lemma dec_TArrAll_bits w : DEC (TArrAll (TBits w)).
+Proof.
+  intros Hw fuel bs Hok Hf. cbn [wire_ty sgreedy sconsumes] in Hw. assert (Hw' : (0 < w)%nat) by lia.
+  cbn [spec_decode decode_fuel is_bits]. unfold array_decode_all.
+  apply rel_flatten_bits.
+  - apply (decode_all_rel (sdec_bits w) (bits_decode w) fuel (fun b Hb _ => bits_rel w b Hw' Hb)
+             (suf_weak (TBits w) (wire_TBits w Hw'))); try lia; try exact Hok.
+    + apply (elem_progress (TBits w) (wire_TBits w Hw')). cbn [sconsumes]. now apply Nat.ltb_lt.
+    + unfold bits_decode. now rewrite int_decode_nil.
+  - intros vs r Hs. destruct (sdec_all_vlist _ _ _ _ _ Hs) as [l ->].
+    destruct (sdec_all_bits_lists _ _ _ _ _ Hs) as [f Hfl]. now exists l, f.
 Qed.
 
 (* ---- Struct *)
@@ -771,7 +877,6 @@ Qed.
 Lemma members_rel fuel ms :
   Forall (fun m : key * ty => DEC (snd m)) ms ->
   forallb (fun m : key * ty => wire_ty (snd m)) ms = true ->
-  forallb (fun m : key * ty => dec_ty (snd m)) ms = true ->
   forall acc bs, bytes_ok bs = true -> (length bs < fuel)%nat -> dkeys_nodup acc = true ->
   skeys_distinct (named_keys ms) = true ->
   forallb (fun k => negb (has_key acc k)) (named_keys ms) = true ->
@@ -783,11 +888,11 @@ Lemma members_rel fuel ms :
   | STrunc => True
   end.
 Proof.
-  intros Hall. induction Hall as [|[k t] ms Ht _ IH]; intros Hw Hd acc bs Hok Hf Hnd Hdist Hfresh.
+  intros Hall. induction Hall as [|[k t] ms Ht _ IH]; intros Hw acc bs Hok Hf Hnd Hdist Hfresh.
   - cbn. exists [], acc. repeat split; auto. now rewrite app_nil_r.
-  - cbn [snd] in Ht. cbn [forallb snd] in Hw, Hd. apply andb_prop in Hw as [Hwt Hwr]. apply andb_prop in Hd as [Hdt Hdr].
+  - cbn [snd] in Ht. cbn [forallb snd] in Hw. apply andb_prop in Hw as [Hwt Hwr].
     cbn [sdec_ms mdec_ms map sdec_members struct_decode_members fst snd]. fold (sdec_ms ms). fold (mdec_ms fuel ms).
-    pose proof (Ht Hwt Hdt fuel bs Hok Hf) as Hr.
+    pose proof (Ht Hwt fuel bs Hok Hf) as Hr.
     destruct (spec_decode t bs) as [x r1| | |] eqn:Hs; cbn [Rel] in Hr; cbn [sbind].
     + rewrite Hr. cbn [dbind].
       destruct (suf_weak t Hwt _ _ _ Hs) as [p E]. destruct (suffix_facts _ _ _ E Hok) as [Hok1 Hl1].
@@ -807,7 +912,7 @@ Proof.
           + apply fresh_after_set; [exact Hf2|]. intros k' Hin. exact (existsb_false_forall _ _ Hd1 k' Hin).
           + now apply strip_dict_set_named. }
       destruct Hpre as (P1 & P2 & P3 & P4).
-      specialize (IH Hwr Hdr (dict_set acc k x) r1 Hok1 ltac:(lia) P1 P2 P3).
+      specialize (IH Hwr (dict_set acc k x) r1 Hok1 ltac:(lia) P1 P2 P3).
       destruct (sdec_members (sdec_ms ms) r1) as [v r| | |]; cbn [sbind].
       * destruct IH as (l & final & -> & I1 & I2 & I3). unfold sadd.
         exists (if sunnamed k then l else (k, x) :: l), final. split; [reflexivity|]. split; [exact I1|]. split; [exact I2|].
@@ -822,11 +927,11 @@ Qed.
 
 Lemma dec_TStruct k ms : Forall (fun m : key * ty => DEC (snd m)) ms -> DEC (TStruct k ms).
 Proof.
-  intros Hall Hw Hd fuel bs Hok Hf. destruct k; try discriminate Hw.
+  intros Hall Hw fuel bs Hok Hf. destruct k; try discriminate Hw.
   cbn [wire_ty] in Hw. apply andb_prop in Hw as [Hw Hdist]. apply andb_prop in Hw as [Hwm _].
-  cbn [dec_ty] in Hd. cbn [spec_decode decode_fuel]. fold (sdec_ms ms). fold (mdec_ms fuel ms).
+  cbn [spec_decode decode_fuel]. fold (sdec_ms ms). fold (mdec_ms fuel ms).
   unfold struct_decode, struct_decode_inner.
-  pose proof (members_rel fuel ms Hall Hwm Hd [] bs Hok Hf eq_refl Hdist) as Hr.
+  pose proof (members_rel fuel ms Hall Hwm [] bs Hok Hf eq_refl Hdist) as Hr.
   assert (Hfresh : forallb (fun k => negb (has_key [] k)) (named_keys ms) = true) by (apply forallb_forall; reflexivity).
   specialize (Hr Hfresh).
   destruct (sdec_members (sdec_ms ms) bs) as [v r| | |]; cbn [Rel].
@@ -872,60 +977,49 @@ Lemma stag_members_rel fuel priv size raw :
   length raw = size -> bytes_ok raw = true -> (size < fuel)%nat ->
   forall ms, Forall (fun m : (key * nat) * ty => DEC (snd m)) ms ->
   forallb (fun m : (key * nat) * ty => wire_ty (snd m)) ms = true ->
-  forallb (fun m : (key * nat) * ty => dec_ty (snd m)) ms = true ->
   forallb (fun m : (key * nat) * ty => negb (skey_in (fst (fst m)) priv) || stotal (snd m)) ms = true ->
-  forall exts pos acc,
-  all_some (map (extent_of size) ms) = Some exts -> offsets_increasing pos exts = true -> (pos <= size)%nat ->
+  forallb (inside size) ms = true ->
+  forall acc,
   skeys_distinct (mkeys_of ms) = true ->
   forallb (fun k => negb (has_key acc k)) (mkeys_of ms) = true ->
   match sdec_stag_members (sdec_sms ms) priv raw with
   | SOk v _ => exists E sub', v = VDict (filter (vis priv) E)
-                              /\ stag_decode_members (mdec_sms fuel ms) size acc (skipn pos raw) = DOk (VDict (acc ++ E)) sub'
+                              /\ stag_decode_members (mdec_sms fuel ms) acc raw = DOk (VDict (acc ++ E)) sub'
                               /\ map fst E = mkeys_of ms
-  | SBad => stag_decode_members (mdec_sms fuel ms) size acc (skipn pos raw) = DErr DataError
-  | SEnd => exists r, stag_decode_members (mdec_sms fuel ms) size acc (skipn pos raw) = DEmpty r
+  | SBad => stag_decode_members (mdec_sms fuel ms) acc raw = DErr DataError
+  | SEnd => exists r, stag_decode_members (mdec_sms fuel ms) acc raw = DEmpty r
   | STrunc => True
   end.
 Proof.
   intros Hlen Hok Hfuel ms Hall. induction Hall as [|[[k off] t] ms Ht _ IH];
-    intros Hw Hd Hp exts pos acc Hex Hinc Hpos Hdist Hfresh.
-  - cbn. exists [], (skipn pos raw). repeat split. now rewrite app_nil_r.
-  - cbn [snd] in Ht. cbn [forallb fst snd] in Hw, Hd, Hp.
-    apply andb_prop in Hw as [Hwt Hwr]. apply andb_prop in Hd as [Hdt Hdr]. apply andb_prop in Hp as [Hpt Hpr].
-    cbn [map all_some] in Hex. unfold extent_of at 1 in Hex. cbn [fst snd] in Hex.
-    destruct (sfixed t) as [w|] eqn:Hfw; [|discriminate].
-    destruct (off + w <=? size)%nat eqn:Hin; [|discriminate]. apply Nat.leb_le in Hin.
-    destruct (all_some (map (extent_of size) ms)) as [exts'|] eqn:Hex'; [|discriminate].
-    cbn [option_map] in Hex. injection Hex as <-.
-    cbn [offsets_increasing] in Hinc. apply andb_prop in Hinc as [Hpo Hinc]. apply Nat.leb_le in Hpo.
+    intros Hw Hp Hin acc Hdist Hfresh.
+  - cbn. exists [], []. repeat split. now rewrite app_nil_r.
+  - cbn [snd] in Ht. cbn [forallb fst snd] in Hw, Hp, Hin.
+    apply andb_prop in Hw as [Hwt Hwr]. apply andb_prop in Hp as [Hpt Hpr]. apply andb_prop in Hin as [Hit Hir].
+    unfold inside in Hit. cbn [fst snd] in Hit.
+    destruct (sfixed t) as [w|] eqn:Hfw; [|discriminate]. apply Nat.leb_le in Hit.
     cbn [mkeys_of map fst] in Hdist, Hfresh. fold (mkeys_of ms) in Hdist, Hfresh.
     cbn [skeys_distinct] in Hdist. apply andb_prop in Hdist as [Hd1 Hd2]. apply negb_true_iff in Hd1.
     cbn [forallb] in Hfresh. apply andb_prop in Hfresh as [Hf1 Hf2]. apply negb_true_iff in Hf1.
-    (* the model reads this member at its offset *)
     cbn [mdec_sms map stag_decode_members fst snd]. fold (mdec_sms fuel ms).
-    rewrite skipn_length, Hlen. replace (size - (size - pos))%nat with pos by lia.
-    assert (Hsub : (if (pos <? off)%nat then skipn (off - pos) (skipn pos raw) else skipn pos raw) = skipn off raw).
-    { destruct (pos <? off)%nat eqn:E.
-      - apply Nat.ltb_lt in E. rewrite skipn_add. f_equal. lia.
-      - apply Nat.ltb_ge in E. f_equal. lia. }
-    rewrite Hsub. set (bsm := skipn off raw).
+    set (bsm := skipn off raw).
     assert (Hokm : bytes_ok bsm = true) by now apply bytes_ok_skipn.
     assert (Hlm : length bsm = (size - off)%nat) by (unfold bsm; rewrite skipn_length; lia).
-    pose proof (Ht Hwt Hdt fuel bsm Hokm ltac:(lia)) as Hr.
-    (* what happens once this member has been decoded to v, leaving skipn w bsm *)
+    pose proof (Ht Hwt fuel bsm Hokm ltac:(lia)) as Hr.
+    (* what happens once this member has been decoded to v *)
     assert (Hnext : forall v,
               match sdec_stag_members (sdec_sms ms) priv raw with
               | SOk v' _ => exists E' sub', v' = VDict (filter (vis priv) E')
-                    /\ stag_decode_members (mdec_sms fuel ms) size (dict_set acc k v) (skipn w bsm) = DOk (VDict (acc ++ (k, v) :: E')) sub'
+                    /\ stag_decode_members (mdec_sms fuel ms) (dict_set acc k v) raw = DOk (VDict (acc ++ (k, v) :: E')) sub'
                     /\ map fst E' = mkeys_of ms
-              | SBad => stag_decode_members (mdec_sms fuel ms) size (dict_set acc k v) (skipn w bsm) = DErr DataError
-              | SEnd => exists r, stag_decode_members (mdec_sms fuel ms) size (dict_set acc k v) (skipn w bsm) = DEmpty r
+              | SBad => stag_decode_members (mdec_sms fuel ms) (dict_set acc k v) raw = DErr DataError
+              | SEnd => exists r, stag_decode_members (mdec_sms fuel ms) (dict_set acc k v) raw = DEmpty r
               | STrunc => True
               end).
-    { intros v. unfold bsm. rewrite skipn_add.
+    { intros v.
       assert (Hfr : forallb (fun k' => negb (has_key (dict_set acc k v) k')) (mkeys_of ms) = true).
       { apply fresh_after_set; [exact Hf2|]. intros k' Hin'. exact (existsb_false_forall _ _ Hd1 k' Hin'). }
-      specialize (IH Hwr Hdr Hpr exts' (off + w)%nat (dict_set acc k v) eq_refl Hinc Hin Hd2 Hfr).
+      specialize (IH Hwr Hpr Hir (dict_set acc k v) Hd2 Hfr).
       rewrite (dict_set_fresh acc k v Hf1) in *.
       destruct (sdec_stag_members (sdec_sms ms) priv raw) as [v' r'| | |]; try exact IH.
       destruct IH as (E' & sub' & -> & I1 & I2). exists E', sub'. split; [reflexivity|]. split; [|exact I2].
@@ -941,9 +1035,7 @@ Proof.
       split; [|split; [exact N1|cbn [map fst mkeys_of]; now rewrite N2]].
       cbn [filter]. rewrite vis_of_skey, Hpk. reflexivity.
     + destruct (spec_decode t bsm) as [v r2| | |] eqn:Hs; cbn [Rel] in Hr; cbn [sbind].
-      * destruct (SUF_all t Hwt bsm v r2 Hs) as (p & E & _ & F). specialize (F w Hfw).
-        assert (Hr2 : r2 = skipn w bsm) by (rewrite E, <- F; symmetry; apply skipn_app_exact).
-        subst r2. rewrite Hr. cbn [dbind]. specialize (Hnext v).
+      * rewrite Hr. cbn [dbind]. specialize (Hnext v).
         destruct (sdec_stag_members (sdec_sms ms) priv raw) as [v' r'| | |]; cbn [sbind]; try exact Hnext.
         destruct Hnext as (E' & sub' & -> & N1 & N2). exists ((k, v) :: E'), sub'.
         split; [|split; [exact N1|cbn [map fst mkeys_of]; now rewrite N2]].
@@ -1000,34 +1092,47 @@ Qed.
 Lemma dec_TStructTag ms bits priv size :
   Forall (fun m : (key * nat) * ty => DEC (snd m)) ms -> DEC (TStructTag ms bits priv size).
 Proof.
-  intros Hall Hw Hd fuel bs Hok Hf. cbn [wire_ty] in Hw. apply andb_prop in Hw as [Hwm Htm].
-  cbn [dec_ty] in Hd. apply andb_prop in Hd as [Hd Hhid]. apply andb_prop in Hd as [Hdm Hord].
+  intros Hall Hw fuel bs Hok Hf. pose proof Hw as Hw0. cbn [wire_ty] in Hw. apply andb_prop in Hw as [Hwm Htm].
+  pose proof (tmpl_inside _ _ _ _ Htm) as Hins.
   cbn [spec_decode decode_fuel]. fold (sdec_sms ms). fold (mdec_sms fuel ms). unfold sdec_stag, structtag_decode.
-  destruct (length bs <? size)%nat eqn:E; [exact I|]. apply Nat.ltb_ge in E.
-  set (raw := firstn size bs). assert (Hlen : length raw = size) by (unfold raw; now apply firstn_length_le).
-  assert (Hokr : bytes_ok raw = true) by (unfold raw; now apply bytes_ok_firstn).
-  unfold tmpl_ok in Htm. apply andb_prop in Htm as [Htm Hkeys]. apply andb_prop in Htm as [Hext Hbits].
-  unfold stag_ordered in Hord. destruct (all_some (map (extent_of size) ms)) as [exts|] eqn:Hex; [|discriminate].
-  fold (mkeys_of ms) in Hkeys. destruct (skeys_distinct_app _ _ Hkeys) as (K1 & K2 & K3).
-  pose proof (stag_members_rel fuel priv size raw Hlen Hokr ltac:(lia) ms Hall Hwm Hdm Hhid exts 0%nat [] Hex Hord ltac:(lia) K1) as Hr.
-  assert (Hfresh0 : forallb (fun k => negb (has_key [] k)) (mkeys_of ms) = true) by (apply forallb_forall; reflexivity).
-  specialize (Hr Hfresh0). cbn [skipn app] in Hr. rewrite Hlen.
-  destruct (sdec_stag_members (sdec_sms ms) priv raw) as [v r0| | |]; cbn [sbind Rel].
-  - destruct Hr as (E0 & sub' & -> & M1 & M2). rewrite M1.
-    rewrite (stag_bits_dec_spec raw bits E0).
-    + cbn [dwrap Rel]. rewrite filter_app, filter_bits_vis; [reflexivity|].
-      intros b Hb. rewrite forallb_forall in Hbits. specialize (Hbits b Hb). apply andb_prop in Hbits as [_ Hbits]. exact Hbits.
-    + rewrite Hlen. apply forallb_forall. intros b Hb. rewrite forallb_forall in Hbits. specialize (Hbits b Hb).
-      apply andb_prop in Hbits as [Hbits _]. exact Hbits.
-    + exact K2.
-    + apply forallb_forall. intros k Hk. apply negb_true_iff. rewrite has_key_keys, M2.
-      destruct (existsb (fun k' => keyb k' k) (mkeys_of ms)) eqn:Ex; [|reflexivity].
-      apply existsb_exists in Ex as (k' & Hk' & Heq). apply keyb_eq in Heq. subst k'.
-      specialize (K3 k Hk'). pose proof (existsb_false_forall _ _ K3 k Hk) as Hc.
-      change (skey_eqb k k) with (keyb k k) in Hc. rewrite keyb_refl in Hc. discriminate.
-  - now rewrite Hr.
-  - destruct Hr as [r ->]. eexists; reflexivity.
-  - exact I.
+  unfold tmpl_ok in Htm. apply andb_prop in Htm as [Htm Hhid]. apply andb_prop in Htm as [Htm Hhead].
+  apply andb_prop in Htm as [Htm Hkeys]. apply andb_prop in Htm as [Hext Hbits].
+  destruct bs as [|b0 bs'] eqn:Hbs.
+  - (* the empty buffer: the first member reports it *)
+    rewrite firstn_nil, skipn_nil. cbn [length Nat.eqb negb andb].
+    assert (Hc : sconsumes (TStructTag ms bits priv size) = true) by (cbn [sconsumes]; exact Hhead).
+    pose proof (EMP_all _ Hw0 Hc fuel) as He. cbn [decode_fuel] in He. fold (mdec_sms fuel ms) in He.
+    unfold structtag_decode in He. rewrite firstn_nil, skipn_nil in He. cbn [length Nat.eqb negb andb] in He.
+    rewrite He. cbn. eexists; reflexivity.
+  - rewrite <- Hbs in *. assert (Hne : (0 < length bs)%nat) by (subst bs; cbn; lia). clear Hbs b0 bs'.
+    destruct (length bs <? size)%nat eqn:E.
+    + apply Nat.ltb_lt in E. rewrite firstn_all2 by lia.
+      replace (negb (length bs =? 0)%nat && (length bs <? size)%nat) with true; [reflexivity|].
+      symmetry. apply andb_true_intro. split; [apply negb_true_iff, Nat.eqb_neq; lia|apply Nat.ltb_lt; lia].
+    + apply Nat.ltb_ge in E.
+      set (raw := firstn size bs). assert (Hlen : length raw = size) by (unfold raw; now apply firstn_length_le).
+      assert (Hokr : bytes_ok raw = true) by (unfold raw; now apply bytes_ok_firstn).
+      rewrite Hlen, Nat.ltb_irrefl, andb_false_r.
+      fold (mkeys_of ms) in Hkeys. destruct (skeys_distinct_app _ _ Hkeys) as (K1 & K2 & K3).
+      pose proof (stag_members_rel fuel priv size raw Hlen Hokr ltac:(lia) ms Hall Hwm Hhid Hins [] K1) as Hr.
+      assert (Hfresh0 : forallb (fun k => negb (has_key [] k)) (mkeys_of ms) = true) by (apply forallb_forall; reflexivity).
+      specialize (Hr Hfresh0). cbn [app] in Hr.
+      destruct (sdec_stag_members (sdec_sms ms) priv raw) as [v r0| | |]; cbn [sbind Rel].
+      * destruct Hr as (E0 & sub' & -> & M1 & M2). rewrite M1.
+        rewrite (stag_bits_dec_spec raw bits E0).
+        -- cbn [dwrap Rel]. rewrite filter_app, filter_bits_vis; [reflexivity|].
+           intros b Hb. rewrite forallb_forall in Hbits. specialize (Hbits b Hb). apply andb_prop in Hbits as [_ Hbits]. exact Hbits.
+        -- rewrite Hlen. apply forallb_forall. intros b Hb. rewrite forallb_forall in Hbits. specialize (Hbits b Hb).
+           apply andb_prop in Hbits as [Hbits _]. exact Hbits.
+        -- exact K2.
+        -- apply forallb_forall. intros k Hk. apply negb_true_iff. rewrite has_key_keys, M2.
+           destruct (existsb (fun k' => keyb k' k) (mkeys_of ms)) eqn:Ex; [|reflexivity].
+           apply existsb_exists in Ex as (k' & Hk' & Heq). apply keyb_eq in Heq. subst k'.
+           specialize (K3 k Hk'). pose proof (existsb_false_forall _ _ K3 k Hk) as Hc.
+           change (skey_eqb k k) with (keyb k k) in Hc. rewrite keyb_refl in Hc. discriminate.
+      * now rewrite Hr.
+      * destruct Hr as [r ->]. eexists; reflexivity.
+      * exact I.
 Qed.
 
 (* ------------------------------------------------------------------ the theorem *)
@@ -1037,21 +1142,21 @@ Section Main.
   Lemma DEC_all : forall t, DEC t.
   Proof.
     apply wire_ty_ind.
-    - intros _ _ fuel bs _ _. apply bool_rel.
-    - intros sg w Hw _ fuel bs _ _. cbn [wire_ty] in Hw. apply int_rel. lia.
-    - intros dbl _ _ fuel bs Hok _. now apply real_rel.
+    - intros _ fuel bs _ _. apply bool_rel.
+    - intros sg w Hw fuel bs _ _. cbn [wire_ty] in Hw. apply int_rel. lia.
+    - intros dbl _ fuel bs Hok _. now apply real_rel.
     - exact dec_TDateTime.
     - exact dec_TStr.
-    - intros _ Hd. discriminate Hd.
+    - exact dec_TStringN.
     - intros Hw. discriminate Hw.
     - exact dec_TNBytes.
-    - intros w Hw _ fuel bs Hok _. cbn [wire_ty] in Hw. apply bits_rel; [lia|exact Hok].
+    - intros w Hw fuel bs Hok _. cbn [wire_ty] in Hw. apply bits_rel; [lia|exact Hok].
     - intros n e He. destruct (is_bitstr e) eqn:Hb.
       + destruct e; try discriminate. apply dec_TArrFixed_bits.
       + now apply dec_TArrFixed_plain.
     - intros inst lt e _ _ Hw. discriminate Hw.
     - intros e He. destruct (is_bitstr e) eqn:Hb.
-      + intros _ Hd. cbn [dec_ty] in Hd. rewrite Hb in Hd. apply andb_prop in Hd as [_ Hd]. discriminate.
+      + destruct e; try discriminate. apply dec_TArrAll_bits.
       + now apply dec_TArrAll_plain.
     - exact dec_TStruct.
     - exact dec_TFixedStr.
@@ -1063,7 +1168,7 @@ Section Main.
 
   (* the fuel-free view: decode t bs = res_of_dres (decode_fuel (S (length bs)) t bs) *)
   Theorem decode_is_spec_gen t bs :
-    wire_ty t = true -> dec_ty t = true -> bytes_ok bs = true ->
+    wire_ty t = true -> bytes_ok bs = true ->
     match spec_decode t bs with
     | SOk v rest => decode t bs = Ok (v, rest)
     | SBad => decode t bs = Err DataError
@@ -1071,8 +1176,8 @@ Section Main.
     | STrunc => True
     end.
   Proof.
-    intros Hw Hd Hok. unfold decode.
-    pose proof (DEC_all t Hw Hd (S (length bs)) bs Hok ltac:(lia)) as Hr.
+    intros Hw Hok. unfold decode.
+    pose proof (DEC_all t Hw (S (length bs)) bs Hok ltac:(lia)) as Hr.
     destruct (spec_decode t bs) as [v r| | |]; cbn [Rel] in Hr.
     - now rewrite Hr.
     - now rewrite Hr.
